@@ -141,8 +141,14 @@ fn classify_tokens(p: &Parsed) -> String {
     }
 }
 
-fn line_op(raw: &str) -> String {
-    format!("line {} {}", to_hex(raw.as_bytes()), classify_tokens(&mirror_parse(raw)))
+/// The entry-point glue of both listeners (`spawn_stdin_listener`, `control_socket::handle`):
+/// bytes up to `\n` -> `String::from_utf8_lossy` -> `trim` (inside the dispatcher too) -> dispatch.
+fn glue(raw: &[u8]) -> String {
+    String::from_utf8_lossy(raw).into_owned()
+}
+
+fn line_op(raw: &[u8]) -> String {
+    format!("line {} {}", to_hex(raw), classify_tokens(&mirror_parse(&glue(raw))))
 }
 
 // ------------------------------------------------------------------------------------------
@@ -313,11 +319,13 @@ pub struct Control {
     // non-triviality bookkeeping
     classes: std::collections::BTreeSet<String>,
     changed_set: bool,
+    /// raw lines of this case, for the end-of-case replay over a real Unix socket
+    session: Vec<Vec<u8>>,
 }
 
 impl Control {
     fn new() -> Self {
-        let rt = tokio::runtime::Builder::new_current_thread().build().expect("tokio rt");
+        let rt = tokio::runtime::Builder::new_current_thread().enable_all().build().expect("tokio rt");
         let (tx, rx) = mpsc::channel::<String>(128);
         Control {
             rt,
@@ -332,6 +340,7 @@ impl Control {
             owned: Vec::new(),
             classes: Default::default(),
             changed_set: false,
+            session: Vec::new(),
         }
     }
 
@@ -638,16 +647,41 @@ impl Control {
 
     fn exec_line(&mut self, raw_hex: &str, cls: &[&str], mon: &mut Mon) -> String {
         let Some(bytes) = parse_hex(raw_hex) else { return "bad-op".into() };
-        let Ok(raw) = String::from_utf8(bytes) else { return "bad-op".into() };
+        let valid_utf8 = std::str::from_utf8(&bytes).is_ok();
+        mon.count(if valid_utf8 { "bytes:utf8" } else { "bytes:invalid-utf8" });
+        let raw = glue(&bytes);
         let parsed = mirror_parse(&raw);
         if classify_tokens(&parsed) != cls.join(" ") {
             // the stored decode is not what the mirror struct makes of the raw line
             return "bad-op:stale-decode".into();
         }
+        self.session.push(bytes.clone());
+        // recorded behaviour of the trusted parser (serde), counted so the evidence shows it was met
+        let as_value: Option<Value> = serde_json::from_str(raw.trim()).ok();
         match &parsed {
             Parsed::Blank => mon.count("line:blank"),
-            Parsed::Unparsable => mon.count("line:unparsable"),
+            Parsed::Unparsable => {
+                mon.count("line:unparsable");
+                match &as_value {
+                    None => mon.count("unparsable:not-json"),
+                    Some(v) => {
+                        mon.count("unparsable:valid-json-wrong-shape");
+                        if v.get("id").map(|i| !i.is_null()).unwrap_or(false) {
+                            // answered -32700 with id null although the text carries an id
+                            mon.count("unparsable:json-object-with-id");
+                        }
+                    }
+                }
+            }
             Parsed::Req(r) => {
+                if let Some(v) = &as_value {
+                    if v.is_array() {
+                        mon.count("request:serde-sequence-form");
+                    }
+                    if r.id.is_none() && v.get("id").map(Value::is_null).unwrap_or(false) {
+                        mon.count("request:id-null-treated-as-absent");
+                    }
+                }
                 mon.count("line:request");
                 mon.count(if r.id.is_some() { "id:present" } else { "id:absent" });
                 if r.jsonrpc != "2.0" {
@@ -726,6 +760,288 @@ impl Control {
             hub_len,
             owned
         )
+    }
+
+    /// The case's lines as one byte stream (each terminated by `\n`); whether any is not UTF-8.
+    fn session_stream(&self) -> (Vec<u8>, bool) {
+        let mut v = Vec::new();
+        let mut bad = false;
+        for l in &self.session {
+            bad |= std::str::from_utf8(l).is_err();
+            v.extend_from_slice(l);
+            v.push(b'\n');
+        }
+        (v, bad)
+    }
+
+    /// Replays the case's raw byte lines through the REAL `spawn_stdin_listener`, running in a
+    /// child process of this same binary (`control stdin-child`: piped stdin/stdout, fresh
+    /// config), followed by a sentinel request.  What the child prints must be `dispatch` applied
+    /// to the newline-delimited, lossily decoded pieces; the sentinel must be answered
+    /// (`listener-died:stdin` otherwise).  One case in four; skipped once the listener has been
+    /// seen dead in this process (each such session costs a timeout).
+    fn stdin_session(&mut self, force: bool, mon: &mut Mon) {
+        use std::io::{BufRead, Write};
+        use std::sync::atomic::{AtomicBool, Ordering};
+        static SEEN_DEAD: AtomicBool = AtomicBool::new(false);
+        const SENTINEL: &str = r#"{"jsonrpc":"2.0","id":"verif-end-of-session","method":"get_status"}"#;
+        if self.session.is_empty() || (!force && SEEN_DEAD.load(Ordering::Relaxed)) {
+            return;
+        }
+        let (mut stream_bytes, has_bad) = self.session_stream();
+        let mut h: u64 = 0x84222325cbf29ce4;
+        for b in &stream_bytes {
+            h = (h ^ *b as u64).wrapping_mul(0x100000001b3);
+        }
+        if !force && h % 4 != 0 {
+            return;
+        }
+        mon.count("stdin-session");
+        if has_bad {
+            mon.count("stdin-session:with-invalid-utf8");
+        }
+        stream_bytes.extend_from_slice(SENTINEL.as_bytes());
+        stream_bytes.push(b'\n');
+        // expected, stated with the dispatcher itself
+        let cfg_x = DynamicConfig::new();
+        let stats_x = SharedStats::new();
+        let cw_x = CriticalWindow::new();
+        let mut expected: Vec<String> = Vec::new();
+        for piece in stream_bytes.split(|b| *b == b'\n') {
+            let piece = glue(piece);
+            if let Some(r) = dispatch(&cfg_x, Some(&stats_x), Some(&cw_x), piece.trim()) {
+                expected.push(r.to_json());
+            }
+        }
+        let exe = match std::env::current_exe() {
+            Ok(e) => e,
+            Err(e) => {
+                mon.fail("C18", "stdin-session:io", format!("current_exe: {e}"));
+                return;
+            }
+        };
+        let mut child = match std::process::Command::new(exe)
+            .arg("stdin-child")
+            .stdin(std::process::Stdio::piped())
+            .stdout(std::process::Stdio::piped())
+            .stderr(std::process::Stdio::null())
+            .spawn()
+        {
+            Ok(c) => c,
+            Err(e) => {
+                mon.fail("C18", "stdin-session:io", format!("spawn child: {e}"));
+                return;
+            }
+        };
+        let mut cin = child.stdin.take().expect("child stdin");
+        let cout = child.stdout.take().expect("child stdout");
+        let writer = std::thread::spawn(move || {
+            let _ = cin.write_all(&stream_bytes);
+            let _ = cin.flush();
+            // stdin is closed here: the listener sees EOF after the last line
+        });
+        let (tx, rx) = std::sync::mpsc::channel::<String>();
+        let reader = std::thread::spawn(move || {
+            let mut r = std::io::BufReader::new(cout);
+            let mut buf = Vec::new();
+            loop {
+                buf.clear();
+                match r.read_until(b'\n', &mut buf) {
+                    Ok(0) | Err(_) => break,
+                    Ok(_) => {
+                        let l = String::from_utf8_lossy(&buf).trim_end_matches('\n').to_string();
+                        if tx.send(l).is_err() {
+                            break;
+                        }
+                    }
+                }
+            }
+        });
+        let mut got: Vec<String> = Vec::new();
+        let mut sentinel_answered = false;
+        loop {
+            match rx.recv_timeout(std::time::Duration::from_millis(3000)) {
+                Ok(l) => {
+                    let is_sentinel = l.contains("\"id\":\"verif-end-of-session\"") && l.contains("\"result\"");
+                    got.push(l);
+                    if is_sentinel && got.len() >= expected.len() {
+                        sentinel_answered = true;
+                        break;
+                    }
+                }
+                Err(_) => break,
+            }
+        }
+        let _ = child.kill();
+        let _ = child.wait();
+        let _ = writer.join();
+        let _ = reader.join();
+        if !sentinel_answered {
+            SEEN_DEAD.store(true, Ordering::Relaxed);
+            mon.fail(
+                "C18",
+                if has_bad { "listener-died:stdin" } else { "listener-silent:stdin" },
+                format!(
+                    "the stdin listener answered {} of {} expected responses and never answered the final request{}",
+                    got.len(),
+                    expected.len(),
+                    if has_bad { " (the session contains a line that is not valid UTF-8)" } else { "" }
+                ),
+            );
+            return;
+        }
+        if got != expected {
+            let k = (0..got.len().min(expected.len())).find(|&i| got[i] != expected[i]).unwrap_or(got.len().min(expected.len()));
+            mon.fail(
+                "C18",
+                "stdin-session-differs",
+                format!(
+                    "stdin listener printed {} lines, dispatch {}; first difference at response {k}: listener {:?} vs dispatcher {:?}",
+                    got.len(),
+                    expected.len(),
+                    got.get(k),
+                    expected.get(k)
+                ),
+            );
+        }
+    }
+
+    /// Replays the case's raw lines over a REAL Unix control socket (`control_socket::spawn`, fresh
+    /// config / hub) and compares the byte stream that comes back with `dispatch_async` applied
+    /// directly to the same newline-delimited pieces on another fresh config: one response line
+    /// per answered request, in order, nothing for blank lines / notifications, same final config.
+    /// Runs for one case in three (chosen from the session text, so replays are deterministic).
+    fn socket_session(&mut self, force: bool, mon: &mut Mon) {
+        use tokio::io::{AsyncReadExt, AsyncWriteExt};
+        if self.session.is_empty() {
+            return;
+        }
+        let (stream_bytes, has_bad) = self.session_stream();
+        let mut h: u64 = 0xcbf29ce484222325;
+        for b in &stream_bytes {
+            h = (h ^ *b as u64).wrapping_mul(0x100000001b3);
+        }
+        if !force && h % 3 != 0 {
+            return;
+        }
+        mon.count("socket-session");
+        if has_bad {
+            mon.count("socket-session:with-invalid-utf8");
+        }
+        // expected: the socket handler's contract, stated with the dispatcher itself
+        let cfg_x = DynamicConfig::new();
+        let stats_x = SharedStats::new();
+        let cw_x = CriticalWindow::new();
+        let hub_x = SubscriptionHub::new();
+        let (tx, _rx) = mpsc::channel::<String>(128);
+        let mut owned_x: Vec<String> = Vec::new();
+        let mut expected = String::new();
+        for piece in stream_bytes.split(|b| *b == b'\n') {
+            let piece = glue(piece);
+            let t = piece.trim();
+            if t.is_empty() {
+                continue;
+            }
+            let mut ctx = SubscriptionContext { hub: &hub_x, push_tx: tx.clone(), owned_ids: &mut owned_x };
+            if let Some(r) =
+                self.rt.block_on(dispatch_async(&cfg_x, Some(&stats_x), Some(&cw_x), Some(&mut ctx), t))
+            {
+                expected.push_str(&r.to_json());
+                expected.push('\n');
+            }
+        }
+        // actual: through the listener
+        static SOCK_SEQ: std::sync::atomic::AtomicU64 = std::sync::atomic::AtomicU64::new(0);
+        let path = format!(
+            "/tmp/verif-c18-{}-{}.sock",
+            std::process::id(),
+            SOCK_SEQ.fetch_add(1, std::sync::atomic::Ordering::Relaxed)
+        );
+        let cfg_y = DynamicConfig::new();
+        let (cfg_srv, path_srv) = (cfg_y.clone(), path.clone());
+        let data = stream_bytes.clone();
+        let got: Result<String, String> = self.rt.block_on(async move {
+            let srv = srtla_send::control_socket::spawn(
+                path_srv.clone(),
+                cfg_srv,
+                SharedStats::new(),
+                CriticalWindow::new(),
+                SubscriptionHub::new(),
+            );
+            let mut stream = None;
+            for _ in 0..10000 {
+                match tokio::net::UnixStream::connect(&path_srv).await {
+                    Ok(s) => {
+                        stream = Some(s);
+                        break;
+                    }
+                    Err(_) => tokio::time::sleep(std::time::Duration::from_millis(1)).await,
+                }
+            }
+            let Some(stream) = stream else {
+                srv.abort();
+                return Err("could not connect to the control socket".to_string());
+            };
+            let (mut rd, mut wr) = stream.into_split();
+            let w = tokio::spawn(async move {
+                let _ = wr.write_all(&data).await;
+                let _ = wr.shutdown().await;
+            });
+            let mut out = Vec::new();
+            let r = tokio::time::timeout(std::time::Duration::from_secs(20), rd.read_to_end(&mut out)).await;
+            let _ = w.await;
+            srv.abort();
+            let _ = srv.await;
+            match r {
+                Ok(Ok(_)) => String::from_utf8(out).map_err(|e| format!("non-utf8 output: {e}")),
+                Ok(Err(e)) => Err(format!("read error: {e}")),
+                Err(_) => Err("timeout waiting for the socket to close".to_string()),
+            }
+        });
+        let _ = std::fs::remove_file(&path);
+        match got {
+            Err(e) => mon.fail("C18", "socket-session:io", format!("socket session failed: {e}")),
+            Ok(got) => {
+                if got != expected {
+                    if has_bad && got.len() < expected.len() && expected.starts_with(&got) {
+                        // the connection was closed early: requests after the bad line went unanswered
+                        mon.fail(
+                            "C18",
+                            "no-response-after-bad-utf8:socket",
+                            format!(
+                                "the control socket stopped answering after a line that is not valid UTF-8: {} of {} response bytes arrived",
+                                got.len(),
+                                expected.len()
+                            ),
+                        );
+                    }
+                    let (g, e): (Vec<&str>, Vec<&str>) = (got.lines().collect(), expected.lines().collect());
+                    let k = (0..g.len().min(e.len())).find(|&i| g[i] != e[i]).unwrap_or(g.len().min(e.len()));
+                    mon.fail(
+                        "C18",
+                        "socket-session-differs",
+                        format!(
+                            "control socket returned {} lines, dispatch_async {}; first difference at response {k}: socket {:?} vs dispatcher {:?}",
+                            g.len(),
+                            e.len(),
+                            g.get(k),
+                            e.get(k)
+                        ),
+                    );
+                }
+                let (sx, sy) = (Shadow::of(&cfg_x), Shadow::of(&cfg_y));
+                if sx != sy {
+                    mon.fail(
+                        "C18",
+                        "socket-session-differs:config",
+                        format!("after the session the socket's config is {} but the dispatcher's is {}", sy.show(), sx.show()),
+                    );
+                }
+                if !(T_MIN..=T_MAX).contains(&sy.timeout) {
+                    mon.fail("C18", "timeout-range:socket", format!("conn_timeout_ms = {} after a socket session", sy.timeout));
+                }
+            }
+        }
     }
 
     /// Real threads: concurrent setters (API and dispatcher) and snapshot / get_status readers on
@@ -855,7 +1171,7 @@ fn gen_id(rng: &mut Rng) -> Option<String> {
 }
 
 fn gen_version(rng: &mut Rng) -> Option<String> {
-    if rng.chance(17, 20) {
+    if rng.chance(9, 10) {
         return Some("\"2.0\"".into());
     }
     match rng.below(12) {
@@ -1109,12 +1425,81 @@ fn gen_blank(rng: &mut Rng) -> String {
 }
 
 fn gen_line(rng: &mut Rng) -> String {
-    match rng.below(20) {
-        0..=12 => gen_request(rng),
-        13 | 14 => gen_other_json(rng),
-        15 | 16 => gen_malformed(rng),
-        17 => gen_blank(rng),
+    match rng.below(24) {
+        0..=17 => gen_request(rng),
+        18 | 19 => gen_other_json(rng),
+        20 | 21 => gen_malformed(rng),
+        22 => gen_blank(rng),
         _ => rand_unicode(rng, 40),
+    }
+}
+
+/// A line as bytes: mostly the UTF-8 of `gen_line`, sometimes not valid UTF-8 at all.
+fn gen_line_bytes(rng: &mut Rng) -> Vec<u8> {
+    if !rng.chance(1, 8) {
+        return gen_line(rng).into_bytes();
+    }
+    const BAD: [&[u8]; 10] = [
+        b"\xff", b"\xfe", b"\x80", b"\xc0\xaf", b"\xc3", b"\xe2\x82", b"\xf0\x9f\x98", b"\xed\xa0\x80",
+        b"\xf8\x88\x80\x80\x80", b"\xc1\xbf",
+    ];
+    let bad: &[u8] = BAD[rng.below(BAD.len() as u64) as usize];
+    match rng.below(8) {
+        0 => {
+            // pure garbage bytes (no newline)
+            let n = 1 + rng.below(24) as usize;
+            rng.bytes(n).into_iter().map(|b| if b == b'\n' { 0xff } else { b }).collect()
+        }
+        1 => bad.to_vec(),
+        2 => {
+            // inside a string value: still valid JSON after lossy decoding (U+FFFD in the id)
+            let mut v = b"{\"jsonrpc\":\"2.0\",\"method\":\"get_status\",\"id\":\"a".to_vec();
+            v.extend_from_slice(bad);
+            v.extend_from_slice(b"z\"}");
+            v
+        }
+        3 => {
+            // inside the method name / a param string
+            let mut v = b"{\"jsonrpc\":\"2.0\",\"id\":1,\"method\":\"set_mode\",\"params\":{\"mode\":\"classic".to_vec();
+            v.extend_from_slice(bad);
+            v.extend_from_slice(b"\"}}");
+            v
+        }
+        4 => {
+            // between tokens: breaks the JSON
+            let mut v = b"{\"jsonrpc\":\"2.0\",".to_vec();
+            v.extend_from_slice(bad);
+            v.extend_from_slice(b"\"id\":1,\"method\":\"get_status\"}");
+            v
+        }
+        5 => {
+            // only invalid bytes and whitespace
+            let mut v = b"  ".to_vec();
+            v.extend_from_slice(bad);
+            v.extend_from_slice(b" \t");
+            v
+        }
+        _ => {
+            // a generated line with one byte overwritten / a byte inserted
+            let mut v = gen_line(rng).into_bytes();
+            if v.is_empty() {
+                return bad.to_vec();
+            }
+            let k = rng.below(v.len() as u64) as usize;
+            if rng.chance(1, 2) {
+                v[k] = *rng.pick(&[0xffu8, 0x80, 0xc0, 0xfe, 0x00]);
+            } else {
+                let tail = v.split_off(k);
+                v.extend_from_slice(bad);
+                v.extend_from_slice(&tail);
+            }
+            for b in v.iter_mut() {
+                if *b == b'\n' {
+                    *b = b' ';
+                }
+            }
+            v
+        }
     }
 }
 
@@ -1128,9 +1513,10 @@ impl Component for Control {
          inner whitespace, duplicate members, padding), valid JSON of other shapes (scalars, arrays incl. the serde \
          sequence form, batches, missing members, nesting at the recursion limit), malformed JSON (truncation, \
          trailing commas, quotes, BOM, lone surrogates, raw control chars, leading zeros), blank / unicode \
-         whitespace lines, random unicode; plus `cli` (from_cli with extreme timeouts), `env` (stats provider / \
-         CriticalWindow passed or not), `cw` (sidecar counters) and `race` (real threads: concurrent setters and \
-         snapshot/get_status readers). Non-trivial: at least one successful set_* that changed the \
+         whitespace lines, random unicode; plus `cli` (from_cli with extreme timeouts), `env` (stats provider absent / default / \
+         updated from 0-4 test links, CriticalWindow passed or not), `cw` (sidecar counters) and `race` (real \
+         threads: concurrent setters and snapshot/get_status readers); one case in three is also replayed \
+         over a real Unix control socket at the end of the case. Non-trivial: at least one successful set_* that changed the \
          configuration and at least three distinct response classes (ok / an error code / no response)."
     }
 
@@ -1192,7 +1578,7 @@ impl Component for Control {
                         .collect();
                     ops.push(format!("race {}", join_list(&l)));
                 }
-                _ => ops.push(line_op(&gen_line(rng))),
+                _ => ops.push(line_op(&gen_line_bytes(rng))),
             }
         }
         ops
@@ -1200,6 +1586,11 @@ impl Component for Control {
 
     fn start_case(&mut self) {
         *self = Control::new();
+    }
+
+    fn end_case(&mut self, mon: &mut Mon) {
+        self.socket_session(false, mon);
+        self.stdin_session(false, mon);
     }
 
     fn exec(&mut self, toks: &[&str], mon: &mut Mon) -> String {
@@ -1238,18 +1629,25 @@ impl Component for Control {
                 }
                 format!("cfg={}", got.show())
             }
-            ["env", st, cw] => {
-                let (Some(st), Some(cw)) = (kv(&[st], "stats"), kv_bool(&[cw], "cw")) else { return "bad-op".into() };
+            ["env", st, cw, recipe] => {
+                let (Some(st), Some(cw), Some(recipe)) = (kv(&[st], "stats"), kv_bool(&[cw], "cw"), kv(&[recipe], "recipe"))
+                else {
+                    return "bad-op".into();
+                };
                 if st == "-" {
+                    if recipe != "none" {
+                        return "bad-op".into();
+                    }
                     self.stats = None;
                 } else {
-                    // the only provider the harness can build without a running sender
-                    let s = SharedStats::new();
-                    let v: Value = serde_json::from_str(&s.to_json()).unwrap_or(Value::Null);
+                    let Some(sh) = build_stats(&self.rt, recipe) else { return "bad-op".into() };
+                    let v: Value = serde_json::from_str(&sh.to_json()).unwrap_or(Value::Null);
                     if enc(&v) != st {
+                        // the JSON in the op is not what this provider serialises to
                         return "bad-op:stats".into();
                     }
-                    self.stats = Some(s);
+                    mon.count(&format!("stats-provider:{}", recipe.split(':').next().unwrap_or("?")));
+                    self.stats = Some(sh);
                 }
                 self.cw_pass = cw;
                 "ok".into()
@@ -1262,6 +1660,12 @@ impl Component for Control {
             ["cw", "malformed"] => {
                 self.cw.record_malformed();
                 format!("cw={}/{}", self.cw.windows_received(), self.cw.malformed_datagrams())
+            }
+            ["session"] => {
+                // replay the lines so far through both real listeners now (corpus witnesses)
+                self.socket_session(true, mon);
+                self.stdin_session(true, mon);
+                "session-ok".into()
             }
             ["race", ms] => {
                 let Some(l) = parse_list::<u64>(ms) else { return "bad-op".into() };
@@ -1283,16 +1687,81 @@ fn parse_b(s: &str) -> Option<bool> {
     }
 }
 
+/// Stats providers the harness can build without a running sender: the default snapshot, or one
+/// `update()` over n socket-free test links (virtual clock, fixed ids) so the JSON has per-link
+/// records with floats, strings, negative numbers and nulls.
+fn build_stats(rt: &tokio::runtime::Runtime, recipe: &str) -> Option<SharedStats> {
+    if recipe == "new" {
+        return Some(SharedStats::new());
+    }
+    let n: usize = recipe.strip_prefix("upd:")?.parse().ok()?;
+    if n > 4 {
+        return None;
+    }
+    srtla_core::utils::verif_clock::set(Some(1_000_000));
+    let mut conns = rt.block_on(srtla_core::test_helpers::create_test_connections(n));
+    for (i, c) in conns.iter_mut().enumerate() {
+        c.conn_id = 100 + i as u64;
+        c.window = 1000 * (i as i32 + 1) - 7;
+        c.in_flight_packets = 3 * i as i32;
+        c.connected = i % 3 != 2;
+        if i == 1 {
+            c.last_received = None;
+        }
+    }
+    let sh = SharedStats::new();
+    sh.update(&conns, &srtla_core::ConfigSnapshot::default(), None, None);
+    srtla_core::utils::verif_clock::set(None);
+    Some(sh)
+}
+
 fn gen_env(rng: &mut Rng) -> String {
-    let st = if rng.chance(1, 2) {
-        let v: Value = serde_json::from_str(&SharedStats::new().to_json()).unwrap_or(Value::Null);
-        enc(&v)
-    } else {
-        "-".into()
+    thread_local! {
+        static GEN_RT: tokio::runtime::Runtime =
+            tokio::runtime::Builder::new_current_thread().enable_all().build().expect("tokio rt");
+    }
+    let (st, recipe) = match rng.below(4) {
+        0 | 1 => ("-".to_string(), "none".to_string()),
+        k => {
+            let recipe = if k == 2 { "new".to_string() } else { format!("upd:{}", rng.below(5)) };
+            let sh = GEN_RT.with(|rt| build_stats(rt, &recipe)).expect("stats recipe");
+            let v: Value = serde_json::from_str(&sh.to_json()).unwrap_or(Value::Null);
+            (enc(&v), recipe)
+        }
     };
-    format!("env stats={} cw={}", st, rng.below(2))
+    format!("env stats={} cw={} recipe={}", st, rng.below(2), recipe)
+}
+
+/// `control mkops <file>`: turn a hand-written session into an ops file (corpus helper).
+/// Input lines: `# comment`, `case ...`, `! <op>` (copied), `J <json string literal of the raw line>`,
+/// anything else = the raw line itself.
+fn mkops(path: &str) {
+    let text = std::fs::read_to_string(path).expect("read session file");
+    for l in text.lines() {
+        if l.starts_with('#') || l.starts_with("case") {
+            println!("{l}");
+        } else if let Some(op) = l.strip_prefix("! ") {
+            println!("{op}");
+        } else if let Some(j) = l.strip_prefix("J ") {
+            let raw: String = serde_json::from_str(j).expect("J line must be a JSON string literal");
+            println!("{}", line_op(raw.as_bytes()));
+        } else {
+            println!("{}", line_op(l.as_bytes()));
+        }
+    }
 }
 
 fn main() {
+    let args: Vec<String> = std::env::args().collect();
+    if args.get(1).map(String::as_str) == Some("stdin-child") {
+        // the REAL stdin listener on this process's stdin/stdout; the parent kills us when done
+        srtla_send::config::spawn_stdin_listener(DynamicConfig::new(), SharedStats::new(), CriticalWindow::new());
+        std::thread::sleep(std::time::Duration::from_secs(60));
+        return;
+    }
+    if args.get(1).map(String::as_str) == Some("mkops") {
+        mkops(&args[2]);
+        return;
+    }
     verif_harness::run_main("control", Box::new(Control::new()));
 }
